@@ -20,7 +20,7 @@ def run_concurrent(case) -> dict:
     from ref import cms, gkdi
     import random as _r
 
-    _, seed, net, cross = case
+    family, seed, net, cross = case
     rng = _r.Random(seed)
     pos = [361 + seed % 3, rng.randrange(32), rng.randrange(32)]
     specA = {"rk": 0, "sid": offline.SID_A, "pos": pos, "mode": "nonce", "data": 20, "salt": 1000 + seed}
@@ -42,23 +42,36 @@ def run_concurrent(case) -> dict:
         faults = [["field", "enc_content", pa["enc_content"].hex()]] if cross == "content" else [["flip", 8 * (len(blobB) - 1)]]
     specBm = dict(specB, faults=faults)
     order = rng.random() < 0.5
-    ops = [{"op": "unprotect", "fl": "async", "net": net, "blob": specA, "group": 1}, {"op": "unprotect", "fl": "async", "net": net, "blob": specBm, "group": 1}]
-    if order:
-        ops.reverse()
+    if family == "hist":
+        # one shared cache, one call after the other: B' (rejected), A, B' again, A again, B' once more - in either flavour
+        fls = [rng.choice(("sync", "async")) for _ in range(5)]
+        ops = [{"op": "unprotect", "fl": fls[k], "net": net, "blob": (specBm, specA)[k % 2], "group": None} for k in range(5)]
+        if order:
+            ops = ops[1:]
+    else:
+        ops = [{"op": "unprotect", "fl": "async", "net": net, "blob": specA, "group": 1}, {"op": "unprotect", "fl": "async", "net": net, "blob": specBm, "group": 1}]
+        if order:
+            ops.reverse()
     plan = {"seed": seed, "clock_ft": gkdi.interval_start_filetime(365, 0, 0), "root_keys": [[5, "SHA256", "DH"]], "caller_sids": [offline.SID_A],
             "ctx": {"kind": "stub", "legs": 2, "sig": 16}, "latency_us": [1, rng.choice((50, 3000))],
             "ops": ([{"op": "load_key", "rk": 0}] if net == "offline" else []) + ops}
     tr = P.execute_plan(plan)
     viol = None
-    probes = {"concurrent_pairs": 1}
+    probes = {"concurrent_pairs": 1} if family == "conc" else {"shared_cache_histories": 1}
+    how = "async-concurrent" if family == "conc" else "history"
     for ot in tr.ops:
-        if ot.op["op"] != "unprotect" or not ot.op["blob"].get("faults"):
+        if ot.op["op"] != "unprotect":
             continue
         out = ot.outcome
+        if not ot.op["blob"].get("faults"):
+            if family == "hist" and (out.kind != "ok" or out.value != ptA):
+                viol = viol or common.violation("C04", "valid-blob-after-rejected-one", how, out.kind if out.kind != "ok" else "other-bytes", "", "",
+                                                f"the valid blob A, unprotected on the cache that saw the modified blob before, gave {out.brief()} {out.exc!r}")
+            continue
         if out.kind == "ok" and out.value != ptB:
-            whose = "the plaintext of the OTHER blob in flight" if out.value == ptA else "other bytes"
-            viol = common.violation("C04", "different-plaintext", "async-concurrent", cross, "", "",
-                                    f"modified blob B' ({faults[0][:2]}) unprotected concurrently with valid blob A returned {whose} ({out.value[:12]!r}) instead of failing / B's plaintext")
+            whose = "the plaintext of the OTHER blob" if out.value == ptA else "other bytes"
+            viol = common.violation("C04", "different-plaintext", how, cross, "", "",
+                                    f"modified blob B' ({faults[0][:2]}) unprotected {'concurrently with' if family == 'conc' else 'on the same cache as'} valid blob A returned {whose} ({out.value[:12]!r}) instead of failing / B's plaintext")
         elif out.kind == "ok":
             probes["outcome_same"] = 1
         else:
@@ -76,12 +89,13 @@ class C04(common.Check):
             "2-4 site corruption and field-targeted overwrites (lengths, OIDs, nonce, wrapped CEK, key-identifier fields, ciphertext, tag) "
             "located with ref.cms' offset map; algorithm substitution (content-encryption OID rewritten to every AES mode of the NIST arc x "
             "parameter shapes x content cut to blocks, all 256 last IV bytes for the CBC OIDs); flips/truncations of blobs with > 1 MiB content; pairs of overlapping async unprotects (valid blob A, modified blob B' carrying A's key "
-            "identifier / nonce / wrapped CEK / content) on one simulated loop, online and offline. Non-trivial = stored bytes differ from the base blob; distinct = distinct (blob, faults).")
+            "identifier / nonce / wrapped CEK / content) on one simulated loop, online and offline; the same pairs as histories on one shared "
+            "cache (B' rejected, A, B' again, A, B'); every flip / truncation of blobs whose plaintext is itself a blob (a secret protected twice). Non-trivial = stored bytes differ from the base blob; distinct = distinct (blob, faults).")
     components = {"client": "real (ncrypt_unprotect_secret, DPAPINGBlob.unpack, KeyCache, key derivation, AES-KW/GCM via cryptography)",
                   "blob store": "simulated (fault injection at rest)", "network": "simulated, no DC reachable (attempts observed at the seam)",
                   "base blobs": "reference encoder (ref.cms) and the library's own protect"}
     assumptions = ["AES-KW and AES-GCM from the cryptography package are trusted primitives"]
-    required_fired = ("rot", "tear", "algsub", "big_content", "concurrent_pairs", "outcome_raise", "outcome_same")
+    required_fired = ("rot", "tear", "algsub", "big_content", "concurrent_pairs", "outcome_raise", "outcome_same", "shared_cache_histories", "nested_plaintext")
 
     def exhaustive(self, tier):
         return tier == "thorough"
@@ -154,17 +168,28 @@ class C04(common.Check):
                 out.append([nb + k, [["flip", off * 8 + rng.randrange(8)]]])
             for cut in (e_ - 1, e_ - 16, e_ - 17, s_ + 1024 * 1024, s_ + 65536):
                 out.append([nb + k, [["trunc", cut]]])
+        # a secret that was protected twice: the plaintext is itself a blob; every single-bit flip and truncation of the outer blob
+        nn = nb + len(blobs.big_blobs())
+        for k, b in enumerate(blobs.nested_blobs()):
+            n = len(b.blob)
+            for bit in range(n * 8):
+                out.append([nn + k, [["flip", bit]]])
+            for cut in range(0, n, 3 if tier == "quick" else 1):
+                out.append([nn + k, [["trunc", cut]]])
+        # histories on one shared cache: a modified blob is rejected, a valid one is unprotected, the modified one comes back
+        for i in range(300 if tier == "quick" else 12000):
+            out.append(["hist", i, ("online", "offline")[i % 2], ("key_info", "key_identifier", "enc_cek", "content", "flip", "tagflip")[i % 6]])
         # two overlapping async unprotects on one loop: a valid blob and a modified one that borrows parts of the valid one
         for i in range(400 if tier == "quick" else 20000):
             out.append(["conc", i, ("online", "offline")[i % 2], ("key_info", "key_identifier", "enc_cek", "content", "flip", "tagflip")[i % 6]])
         return out
 
     def run_case(self, case):
-        if case[0] == "conc":
+        if case[0] in ("conc", "hist"):
             return run_concurrent(case)
         bi, faults = case
         cat = blobs.catalogue(next(iter(blobs._CAT)))
-        b = cat[bi] if bi < len(cat) else blobs.big_blobs()[bi - len(cat)]
+        b = cat[bi] if bi < len(cat) else blobs.extra_blobs()[bi - len(cat)]
         stored = blobstore.apply_faults(b.blob, faults, b.offsets)
         fired = {}
         for f in faults:
@@ -172,6 +197,8 @@ class C04(common.Check):
             fired[k] = fired.get(k, 0) + 1
         if len(b.blob) > 1024 * 1024:
             fired["big_content"] = 1
+        if "/nested/" in b.name:
+            fired["nested_plaintext"] = 1
         if stored == b.blob:
             return {"viol": None, "digest": "same", "key": None, "fired": fired, "probes": {"noop_fault": 1}, "vtime_ns": 0}
         out, world, cnt = blobs.unprotect_stored(b, stored)
@@ -192,10 +219,10 @@ class C04(common.Check):
 
     def setup(self, tier, seed):
         blobs.catalogue(tier)
-        blobs.big_blobs()
+        blobs.extra_blobs()
 
     def shrink(self, case):
-        if case[0] == "conc":
+        if case[0] in ("conc", "hist"):
             return
         bi, faults = case
         for i in range(len(faults)):
@@ -203,10 +230,10 @@ class C04(common.Check):
                 yield [bi, faults[:i] + faults[i + 1 :]]
 
     def sample_repr(self, case, res):
-        if case[0] == "conc":
+        if case[0] in ("conc", "hist"):
             return dict(zip(("kind", "seed", "net", "what_of_A_is_grafted_into_B"), case))
         cat = blobs.catalogue(next(iter(blobs._CAT)))
-        b = cat[case[0]] if case[0] < len(cat) else blobs.big_blobs()[case[0] - len(cat)]
+        b = cat[case[0]] if case[0] < len(cat) else blobs.extra_blobs()[case[0] - len(cat)]
         return {"blob": b.name, "faults": case[1]}
 
 
